@@ -106,7 +106,9 @@ pub enum Action {
     /// lost.  As soon as `to` holds a newer commit certificate (it may have finalized a block
     /// nobody else knows to be final) it is cut off from the rest, its messages in flight are
     /// lost, and commit votes flow normally again.  `Heal` ends the episode in any case.
-    HideCommit { to: u32 },
+    /// With `byz_next` the episode only starts if the leader of the view after `to`'s current one
+    /// is Byzantine (it will speak to replicas which have just timed out on a hidden commit).
+    HideCommit { to: u32, #[serde(default)] byz_next: bool },
 }
 
 pub fn tag_of(node: usize, inc: u64) -> u64 {
@@ -705,12 +707,19 @@ impl Cluster {
                     }
                 }
             }
-            Action::HideCommit { to } => {
+            Action::HideCommit { to, byz_next } => {
                 let correct: Vec<usize> = (0..self.n()).filter(|i| !self.is_byz(*i)).collect();
                 if correct.is_empty() || self.hide.is_some() {
                     return;
                 }
                 let to = correct[*to as usize % correct.len()];
+                if *byz_next {
+                    let next = self.nodes[to].view.unwrap_or(0).saturating_add(1);
+                    let leader = self.hub.committee.schedule.view_leader(validator::ViewNumber(next));
+                    if !self.hub.committee.idx(&leader).is_some_and(|l| self.is_byz(l)) {
+                        return;
+                    }
+                }
                 let base = self.nodes[to].snap.as_ref().and_then(|s| s.high_commit_qc.as_ref().map(|q| q.view().number.0));
                 self.hub.ev(format!("from now on commit votes reach only n{to} (until it holds a newer commit certificate than {base:?})"));
                 // Votes already in flight to others are lost too.
